@@ -666,6 +666,7 @@ pub fn run_keys(inputs: &[J], out: &mut dyn Write) -> J {
     for inp in inputs {
         let mut vals = Vec::new();
         let mut encs = Vec::new();
+        let mut fords: Vec<J> = Vec::new();
         for v in inp["vals"].as_array().cloned().unwrap_or_default() {
             let (pv, t) = if let Some(b) = v.get("blob") {
                 let bytes: Vec<u8> = b.as_array().unwrap().iter().map(|x| x.as_u64().unwrap() as u8).collect();
@@ -685,9 +686,20 @@ pub fn run_keys(inputs: &[J], out: &mut dyn Write) -> J {
             let enc = nervusdb_storage::index::ordered_key::encode_ordered_value(&pv);
             vals.push(t);
             encs.push(json!(enc));
+            // for floats: sign and magnitude bits in three 21-bit limbs (most significant first), so that the specification can
+            // order numbers outside its exact range by their IEEE representation; both zeros are [0, 0, 0, 0]
+            fords.push(match &pv {
+                PV::Float(f) if !f.is_nan() => {
+                    let bits = f.to_bits();
+                    let mag = bits & 0x7fff_ffff_ffff_ffff;
+                    let sign: i64 = if mag == 0 { 0 } else if bits >> 63 == 1 { -1 } else { 1 };
+                    json!([sign, (mag >> 42) & 0x1f_ffff, (mag >> 21) & 0x1f_ffff, mag & 0x1f_ffff])
+                }
+                _ => json!([0, 0, 0, 0]),
+            });
             n += 1;
         }
-        writeln!(out, "{}", json!({"ev": "keys", "id": inp["id"], "vals": vals, "enc": encs})).unwrap();
+        writeln!(out, "{}", json!({"ev": "keys", "id": inp["id"], "vals": vals, "enc": encs, "ford": fords})).unwrap();
     }
     json!({"lists": inputs.len(), "values": n})
 }
